@@ -704,8 +704,9 @@ def printable (cp : Nat) : Prop :=
 /-- payload bytes of a title: no C0 control, no DEL (UTF-8 text passes through unchanged) -/
 def textByte (b : Nat) : Prop := 32 ≤ b ∧ b ≠ 127 ∧ b < 256
 
-/-- capability names are printable ASCII -/
-def nameByte (b : Nat) : Prop := 32 ≤ b ∧ b < 127
+/-- bytes of a capability name: any byte of a UTF-8 string without C0 controls (the encoder writes each
+byte with `{:x}`, which has two digits exactly from 16 on; real names are printable ASCII) -/
+def nameByte (b : Nat) : Prop := 32 ≤ b ∧ b < 256
 
 /-! ## line protocol -/
 
